@@ -11,6 +11,11 @@ RULE = ("random small datasets (3-8 rows, 2 real features, 2-3 classes, 2-4 vali
         "vector not constant; distinct = distinct (dataset, method, rendering).")
 
 
+# representations a method rejects on the pinned tree (the property quantifies over "every method that accepts the representation"); every other
+# (method, representation) pair generated here is accepted there, and rejecting it is reported
+REJECTED_ON_PINNED_TREE = {("bruteforce", "float_labels"), ("montecarlo", "float_labels"), ("bruteforce", "sparse_pipeline"), ("montecarlo", "sparse_pipeline")}
+
+
 def run(ctx):
     I = load_impl(ctx)
     import pandas as pd
@@ -24,19 +29,22 @@ def run(ctx):
     n_cases = 12 if q else 80
     accepted = {}
     for it in range(n_cases):
-        method = ["neighbor", "bruteforce", "montecarlo"][it % 3]
-        n = rng.randint(3, 8 if method == "neighbor" else 5)
+        method = ["neighbor", "bruteforce", "montecarlo", "montecarlo"][it % 4]
+        mc_trunc = (it % 4 == 3)          # montecarlo with truncation ON: the band is centred on utility.mean_score, one more consumer of the features
+        n = rng.randint(3, 8 if method == "neighbor" else 5) if not mc_trunc else rng.randint(7, 9)
         nprng = np.random.RandomState(rng.randrange(2 ** 31))
         X = np.round(nprng.randn(n, 2), 3)
         c = rng.randint(2, 3)
         y = np.array([i % c for i in range(n)])
         nprng.shuffle(y)
-        m = rng.randint(2, 4)
+        m = rng.randint(2, 4) if not mc_trunc else rng.randint(8, 12)
         Xv = np.round(nprng.randn(m, 2), 3)
         yv = np.array([rng.randrange(c) for _ in range(m)])
         kw = {}
         if method == "montecarlo":
             kw = dict(mc_iterations=3, mc_truncation_steps=0, seed=rng.randrange(1000))
+            if mc_trunc:
+                kw = dict(mc_iterations=6, mc_truncation_steps=1, mc_tolerance=rng.choice([0.2, 0.35, 0.5]), seed=rng.randrange(1000))
 
         def score(Xa, ya, Xva, yva, pipeline=None):
             util = U.SklearnModelAccuracy(KNeighborsClassifier(1))
@@ -67,6 +75,7 @@ def run(ctx):
             "string_labels": lambda: (X, np.array([str_map[k] for k in y]), Xv, np.array([str_map[k] for k in yv]), None),
             "sparse_pipeline": lambda: (X, y, Xv, yv, Pipeline([("sp", FunctionTransformer(csr_matrix))])),
             "stateful_pipeline_vs_pretransformed": lambda: (X, y, Xv, yv, Pipeline([("sc", StandardScaler())])),
+            "scale_pipeline_vs_pretransformed": lambda: (X, y, Xv, yv, Pipeline([("f", FunctionTransformer(lambda A: np.asarray(A) * np.array([3.0, 0.2]) + np.array([1.0, -2.0])))])),
             "map_pipeline": lambda: (np.hstack([X, np.zeros((n, 1))]), y, np.hstack([Xv, np.zeros((m, 1))]), yv, Pipeline([("cut", FunctionTransformer(lambda A: np.asarray(A)[:, :2]))])),
         }
         for name, mk in renderings.items():
@@ -82,10 +91,20 @@ def run(ctx):
                 except Exception as e:  # noqa
                     ctx.mismatch("pre-transformed rendering raised", rcase, impl=exc_name(e) + repr(e))
                     continue
+            if name == "scale_pipeline_vs_pretransformed":
+                f = lambda A: np.asarray(A) * np.array([3.0, 0.2]) + np.array([1.0, -2.0])      # noqa: E731
+                try:
+                    ref = score(f(X), y, f(Xv), yv)
+                except Exception as e:  # noqa
+                    ctx.mismatch("pre-transformed rendering raised", rcase, impl=exc_name(e) + repr(e))
+                    continue
             try:
                 got = score(Xa, ya, Xva, yva, pipeline=pipe)
             except (AssertionError, ValueError, TypeError, KeyError, AttributeError, IndexError) as e:
                 accepted[(method, name)] = "rejected:" + type(e).__name__
+                if (method, name) not in REJECTED_ON_PINNED_TREE:
+                    ctx.mismatch("a representation the method accepts on the pinned tree is now rejected instead of yielding the same scores", rcase,
+                                 impl=exc_name(e) + repr(e), spec=ref)
                 ctx.case((it, name), nontrivial=False, rendering=name, method=method, accepted=False)
                 continue
             except Exception as e:  # noqa
